@@ -5,7 +5,7 @@ import nets
 
 PID = "C09"
 THEOREMS = ["coarse_shape_covers", "repcell_spec", "valid_iff_outlet_dmm", "valid_iff_outlet_eam", "valid_iff_outlet_eam_plus",
-            "outlet_pixel_spec", "rep_pixels_distinct", "outlet_pixels_distinct", "eam_plus_link_partial", "upscale_error_spec", "first_outlet_downstream", "outlet_map_spec", "eam_scale1", "eam_plus_scale1", "eam_link_increases", "eam_loopfree", "eam_plus_loopfree", "eam_links_d8", "eam_plus_links_d8", "dmm_links_d8", "dmm_loopfree"]
+            "outlet_pixel_spec", "rep_pixels_distinct", "outlet_pixels_distinct", "d8_idx_spec", "upstream_d8_idx_spec", "eam_plus_link_partial", "upscale_error_spec", "first_outlet_downstream", "outlet_map_spec", "eam_scale1", "eam_plus_scale1", "eam_link_increases", "eam_loopfree", "eam_plus_loopfree", "eam_links_d8", "eam_plus_links_d8", "dmm_links_d8", "dmm_loopfree"]
 RULE = ("random loop-free fine D8 networks 2x2..12x12 (ragged w.r.t. the scale factor, nodata regions, many small basins, "
         "single rows / columns) x methods dmm, eam, eam_plus, ihu x scale factors 1..5 x default and user upstream area "
         "(accumulations of positive integer weights); FlwdirRaster.upscale + upscale_error; the three non-iterative "
@@ -185,7 +185,16 @@ def impl(case):
         flw1.to_array("d8")
     except ValueError:
         exportable = 0
-    return [[0], cds, out, shape1, ea, upa_used, err, [exportable]]
+    # the 8-neighbour helper of the iterative method, on every cell of the coarse raster (kernel 915)
+    from pyflwdir import core
+    d8flat, upflat = [], []
+    cda = np.asarray(flw1.idxs_ds)
+    for i0 in range(min(len(cds), 40)):
+        l1 = [int(x) for x in core._d8_idx(i0, tuple(shape1))]
+        l2 = [int(x) for x in core._upstream_d8_idx(i0, cda, tuple(shape1))]
+        d8flat += [i0, len(l1)] + l1
+        upflat += [i0, len(l2)] + l2
+    return [[0], cds, out, shape1, ea, upa_used, err, [exportable], d8flat, upflat]
 
 
 def compare(case, i, m):
@@ -205,6 +214,8 @@ def post_checks(case, i):
     # the hypotheses of eam_links_d8 on THIS input: the implementation's effective-area map contains the middle rows and
     # columns of every coarse cell, and the fine links join 8-neighbouring pixels
     yield ("effective-area:no-cross-or-fine-links-not-d8", 914, base)
+    if len(i) > 9:
+        yield ("d8-neighbour-helper:differs-from-model", 915, [cds, [shape1[0]], [shape1[1]], i[8], i[9]])
 
 
 def oracle(case, out):
